@@ -672,6 +672,20 @@ def check_flights(chk: Check, cases, f1_fixed: bool, interp_fixed: bool):
                         and same_resampling(resample_impl(im['traj']), resample_as_coded(im['traj']), [q for q in qs if len(q)]))
                 interp_jobs.append((case, interp_job(im['cols'], pick, lam)))
         im['rviol'] = rviol
+        # the hypotheses of the theorems about the performance oracle, on every recorded answer of this flight
+        for rule, alt, mass, ans, _exc in im['perf']:
+            if ans is None:
+                continue
+            tas, rocd, ff = ans
+            ok = tas > 0 and ((rule == 'CLIMB' and rocd > 0) or (rule == 'DESCEND' and rocd < 0)
+                              or (rule == 'CRUISE' and ff >= 0))
+            if not ok:
+                chk.broken('assumption:valid_oracle',
+                           f'performance model answered {ans} for {rule} at altitude {alt}, mass {mass}: outside the '
+                           'hypotheses (climb rocd > 0, descent rocd < 0, tas > 0, cruise fuel flow >= 0)',
+                           {'kind': 'flight', 'case': case})
+                break
+        chk.count('oracle-answers-checked', sum(1 for c in im['perf'] if c[3] is not None))
         im['viol'] = viol
         im.pop('traj', None)
         impls.append(im)
